@@ -181,9 +181,9 @@ def queries(h, cfg):
             if hasattr(sub, "lock"):
                 req.append(f.sig(sub.lock) != (f.sig(bus.lock) if hasattr(bus, "lock") else bv(1, 0)))
             if hasattr(sub, "cti"):
-                req.append(f.sig(sub.cti) != (f.sig(bus.cti) if hasattr(bus, "cti") else bv(3, CycleType.CLASSIC.value)))
+                req.append(f.sig(sub.cti) != (f.sig(bus.cti) if hasattr(bus, "cti") else bv(3, 0b000)))
             if hasattr(sub, "bte"):
-                req.append(f.sig(sub.bte) != (f.sig(bus.bte) if hasattr(bus, "bte") else bv(2, BurstTypeExt.LINEAR.value)))
+                req.append(f.sig(sub.bte) != (f.sig(bus.bte) if hasattr(bus, "bte") else bv(2, 0b00)))
             bad.append(z3.And(sel_, z3.Or(*req)))
         return [], z3.Or(*bad) if bad else z3.BoolVal(False)
 
